@@ -15,7 +15,7 @@ from ..cfg import CFG, enclosing_loops
 from ..core import AnalysisError, Report, Repo, norm_stmt
 from ..dataflow import ReachingDefs
 from ..kernels import Kernel, kernel, load_kernels
-from ..rules import array_params_of, r_bind
+from ..rules import array_params_of, input_writes, r_bind
 from ..sites import Site, const_list, load_sites
 
 AFILE = "hdc/algo/accessors.py"
@@ -201,35 +201,7 @@ def run(repo: Repo, tier: str) -> Report:
         rep.ob("R-PURE", k.file, name, "no global/nonlocal state is written and no module-level mutable object is read", not glob and not mutable and not unknown,
                f"global statements {[norm_stmt(g) for g in glob]}; module-level objects read {mutable}; unresolved names {unknown}", f"{name}: free names")
         # R-READONLY
-        ins = set(k.inputs) & array_params_of(k)
-        alias = {}
-        for st in ast.walk(k.node):
-            if isinstance(st, ast.Assign) and isinstance(st.targets[0], ast.Name):
-                v = st.value
-                if isinstance(v, ast.Name) and v.id in ins:
-                    alias[st.targets[0].id] = v.id
-                if isinstance(v, ast.Subscript) and isinstance(v.value, ast.Name) and v.value.id in ins:
-                    sl = v.slice
-                    parts = sl.elts if isinstance(sl, ast.Tuple) else [sl]
-                    if any(isinstance(p_, ast.Slice) for p_ in parts) and not any(isinstance(p_, ast.Name) and False for p_ in parts):
-                        alias[st.targets[0].id] = v.value.id
-        rebinds = {st.targets[0].id for st in ast.walk(k.node) if isinstance(st, ast.Assign) and isinstance(st.targets[0], ast.Name)
-                   and st.targets[0].id in ins and isinstance(st.value, ast.Call)}
-        bad = []
-        for st in ast.walk(k.node):
-            tg = []
-            if isinstance(st, ast.Assign):
-                tg = st.targets
-            elif isinstance(st, ast.AugAssign):
-                tg = [st.target]
-            for t in tg:
-                for tt in (t.elts if isinstance(t, ast.Tuple) else [t]):
-                    if isinstance(tt, ast.Subscript) and isinstance(tt.value, ast.Name) and (tt.value.id in ins or tt.value.id in alias) \
-                            and tt.value.id not in rebinds:
-                        bad.append(st)
-            if isinstance(st, ast.Call) and ast.unparse(st.func).split(".")[-1] == "round" and len(st.args) == 3 and isinstance(st.args[2], ast.Name) \
-                    and (st.args[2].id in ins or st.args[2].id in alias):
-                bad.append(st)
+        bad = input_writes(k)
         rep.ob("R-READONLY", k.file, name, "no store into an input array or a view of one", not bad,
                f"`{norm_stmt(bad[0])}` writes the caller's array (dask may share it between tasks)" if bad else "", bad[0] if bad else f"{name}: stores into inputs")
 
